@@ -120,3 +120,29 @@ func QuoteNameSurrogate(key string, q Notation) string {
 	s := QuoteName(key, q, 0)
 	return strings.ReplaceAll(s, "�", `\ud800`)
 }
+
+// QuoteNameSurrogateAll writes every character as a \uXXXX escape and every U+FFFD as a lone
+// surrogate escape (high or low half by position), so that a lone surrogate is directly followed
+// by another escape that does not complete a pair.
+func QuoteNameSurrogateAll(key string, q Notation) string {
+	quote := "'"
+	if q == NDQ {
+		quote = `"`
+	}
+	var sb strings.Builder
+	sb.WriteString(quote)
+	r := []rune(key)
+	for i, c := range r {
+		if c == 0xfffd {
+			if i+1 < len(r) && r[i+1] == 0xfffd {
+				sb.WriteString(`\udc00`) // a lone low half
+			} else {
+				sb.WriteString(`\ud834`) // a high half followed by something that is not a low half
+			}
+			continue
+		}
+		writeU(&sb, c)
+	}
+	sb.WriteString(quote)
+	return sb.String()
+}
